@@ -444,6 +444,9 @@ func (p *Prog) flatten() {
 	/* One spelling per operation (len(s) == 0 is s == "", ...). */
 	for _, f := range tops {
 		p.Canon += ssa.Canonicalize(f)
+		if ssa.FoldWriteString(f) {
+			p.Canon++
+		}
 	}
 	/* Calls which never return end their block, so that "if err != nil {
 	log.Fatalf(...) }" does not fall through in the flow graph. */
